@@ -9,7 +9,8 @@ What differs is WHAT is tracked. The inputs of a cached / derived box:
     back pointers       `<o>._parent = `, `<o>._psd = `
     visibility          `<o>._record.flags.visible = `
     record rectangle    `<o>._record.left / top / right / bottom = `
-    the cache itself    `<o>._bbox = None` -> reset;   `<o>._bbox = <anything else>` outside a `bbox` getter -> store
+    the cache itself    `<o>._bbox = None` -> reset (not when restricted to `isinstance(<o>, ShapeLayer)`: the model's caches
+                        are those of containers);   `<o>._bbox = <anything else>` outside a `bbox` getter -> store
     the dirty flag      `<doc of o>._updated_layers = True` -> dirty;  any other value -> store
     the invalidation    `<o>._invalidate_bbox()` -> inval (NOT inlined: how far it climbs is read off its body once,
                         see `climb_of`)
@@ -146,6 +147,8 @@ class _Flat14(_Flat):
             if own_init or (val is not None and _is_none(val) and False):
                 return
             if val is not None and _is_none(val):
+                if any(re.fullmatch(r"g\d+:isinstance\(%s, ShapeLayer\)" % re.escape(base), g) for g in guards):
+                    return                                           # a shape layer's own box: not in the model (leaves)
                 self.emit("reset", _owner(base), "self", list(guards))
             elif fn.name == "bbox":
                 return                                               # the getter fills the cache
